@@ -139,11 +139,16 @@ def run(chk):
         for r_ in rhos:
             r_[0, -1] += 0.1 - 0.15j
             r_[-1, 0] += 0.1 + 0.15j
+        # every run: initial states that are not normalised (the library takes any square matrix of the right dimension; the field
+        # equation sees the states as they are)
+        traces = [1.5, 0.8, 1.2][:nsys] if it % 3 == 2 else [1.0] * nsys
+        rhos = [r_ * tr_ for r_, tr_ in zip(rhos, traces)]
         layout = "F" if it % 2 == 1 else "C"
         if layout == "F":
             rhos = [np.asfortranarray(r_) for r_ in rhos]
         a0 = 0.4 + 0.1j
-        info = {"systems": nsys, "start": start, "N": N, "dkmax": par.dkmax, "add_correlation_time": tau_, "initial_state_layout": layout}
+        info = {"systems": nsys, "start": start, "N": N, "dkmax": par.dkmax, "add_correlation_time": tau_, "initial_state_layout": layout,
+                "initial_state_traces": traces}
         try:
             d1 = quiet(oqupy.MeanFieldTempo(mfs, baths, par, rhos, a0, start).compute, start + N * dt, progress_type="silent")
             pts = [quiet(oqupy.pt_tempo_compute, b, start, start + N * dt, parameters=par, progress_type="silent") for b in baths]
@@ -168,6 +173,11 @@ def run(chk):
             dev = max(dev, np.abs(np.array(d1.system_dynamics[i].states) - np.array(d2.system_dynamics[i].states)).max())
         if dev > 2e3 * eps or list(d1.times) != list(d2.times):
             chk.fail("methods-disagree", f"MeanFieldTempo and compute_dynamics_with_field differ by {dev:.2e}", info)
+        for nm_, dy_ in (("MeanFieldTempo", d1), ("compute_dynamics_with_field", d2)):
+            dev0 = max(np.abs(np.array(dy_.system_dynamics[i].states[0]) - np.array(rhos[i])).max() for i in range(nsys))
+            if dev0 > 2e3 * eps:         # (the process-tensor route contracts the truncated caps into the first state as well)
+                chk.fail("initial-state-changed", f"{nm_}: the states recorded at the start time differ from the initial states handed in by {dev0:.2e} "
+                         f"(traces {traces})", dict(info, run=nm_))
 
         # the Heun rule read off the reported trajectory: a_{k+1} = a_k + dt/2 (f(t_k, rho_k, a_k) + f(t_{k+1}, rho_{k+1}, a_k + dt f(t_k, rho_k, a_k)))
         def heun_residual(dyn):
